@@ -68,6 +68,20 @@ def target_name(v):
     return "str:" + str(v)
 
 
+def _link_flag(ol):
+    """(link key, direction flag) of an entry of path.links.  For a link joining a segment end to
+    itself (hairpin) both directions visit the same oriented segments and the flag only selects the
+    spelling of the overlap: it is not part of the observation (DESIGN 3.1)."""
+    n, o = target_name(ol)
+    try:
+        l = ol.line
+        if l.from_segment is l.to_segment and l.from_orient != l.to_orient:
+            o = "+/-"
+    except Exception:
+        pass
+    return (n, o)
+
+
 def _coll(x, name):
     try:
         v = getattr(x, name)
@@ -97,7 +111,7 @@ def obs_line(x, g=None):
             refs[f] = "unobservable:" + type(e).__name__
     if rt == "P":
         try:
-            refs["links"] = [target_name(ol) for ol in x.links]
+            refs["links"] = [_link_flag(ol) for ol in x.links]
         except Exception as e:
             refs["links"] = "unobservable:" + type(e).__name__
     d["refs"] = refs
